@@ -258,11 +258,6 @@ class C20(Check):
 
     # ------------------------------------------------------------------ budget / gen
     def budget(self, tier):
-        b = self._budget(tier)
-        only = os.environ.get('C20_ONLY_DEBUG')
-        return {k: v for k, v in b.items() if not only or k in only.split(',')}
-
-    def _budget(self, tier):
         q = tier == 'quick'
         return {
             'ws_clean': 8,
@@ -304,8 +299,10 @@ class C20(Check):
             if cls == 'ws_call':
                 k = i // 2
                 return {'entry': 'ws', 'rescore': bool(i % 2), 'calib': ENTRY_CALIB[(i // 2 + 5) % len(ENTRY_CALIB)], 'fault': {'mode': 'call', 'index': k, 'exc': EXC_NAMES[(k + 1) % NEXC]}}
+            nat = WS_NATURAL[(i // 2) % len(WS_NATURAL)]
+            # (the scoring stage as shipped looks for the files of every field before it gives up: it keeps the short list)
             return {'entry': 'ws', 'rescore': bool(i % 2), 'calib': ENTRY_CALIB[(i // 2 + 3) % len(ENTRY_CALIB)],
-                    'fault': {'mode': 'natural', 'natural': WS_NATURAL[(i // 2) % len(WS_NATURAL)]}, 'nfields': [3, 20000][(i // 2) % 2]}
+                    'fault': {'mode': 'natural', 'natural': nat}, 'nfields': 3 if 'score_real' in nat else [3, 20000][(i // 2) % 2]}
         ncfg = 2 if q else 8
 
         def cfg(j):
